@@ -495,7 +495,7 @@ PROPS['C09'] = dict(
 
 PROPS['C05'] = dict(
     props='props/C05.v',
-    models=['Ledger', 'LedgerCheck', 'LedgerBlock', 'LedgerBlockCheck', 'Auth'],
+    models=['Ledger', 'LedgerCheck', 'LedgerBlock', 'LedgerBlockCheck', 'Auth', 'BlockAuth'],
     harness='c04',
     args=dict(quick=['-prop', '5', '-states', '6', '-txs', '40'], escalated=['-prop', '5', '-states', '16', '-txs', '50'], thorough=['-prop', '5', '-states', '80', '-txs', '60']),
     fingerprint_groups=['Auth', 'Ledger'],
@@ -595,7 +595,10 @@ _EXTRA3 = {
         'and proved equal to the model\'s view_less / safe_node (proofs/BftGen.v): a change of either breaks a proof obligation before any case runs.',
  'C02': ' Also: the weakest k members sign and exactly (committee size - k) unused bits of the last bitmap byte are set (the count of set '
         'bits equals the committee size under a minority of the power).',
- 'C05': ' Also: dependent blocks - a validator / an order is created by a rightfully signed transaction and acted upon (edit-stake, unstake, '
+ 'C05': ' (two-pass model) every block of transfers and every dependent block is also a case of BlockAuth.v: per transaction what the first pass of '
+        'ApplyTransactions must see (CheckTx result on the start state, the signature jobs and whether they verify) against what happened (executed / '
+        'failed on the batch verifier\'s signature verdict / failed otherwise): exactly the owners of bad jobs fail on the signature (M), what '
+        'executed had reached the second pass (M), what executed was authorized (V). Also: dependent blocks - a validator / an order is created by a rightfully signed transaction and acted upon (edit-stake, unstake, '
         'pause, edit-order, delete-order) by a later transaction of the SAME block that declares the owner\'s key under somebody else\'s signature; presented twice.',
  'C14': ' (collection) pieces offered one by one to the REAL AddDSE on one collection - exact duplicates, the same view and payloads under '
         'other signer sets, fresh pieces - kept count and the REAL ProcessDSE of the collection compared with Evidence.collect (M); whoever a single '
